@@ -38,6 +38,10 @@ type Template struct {
 	tokens []*Token
 	parser *Parser
 
+	// The template whose extends/include/import/ssi tag made the set load
+	// this one (nil for templates requested by the application)
+	loadedBy *Template
+
 	// first come, first serve (it's important to not override existing entries in here)
 	level          int
 	parent         *Template
@@ -61,11 +65,16 @@ func newTemplateString(set *TemplateSet, tpl []byte) (*Template, error) {
 }
 
 func newTemplate(set *TemplateSet, name string, isTplString bool, tpl []byte) (*Template, error) {
+	return newTemplateLoadedBy(set, nil, name, isTplString, tpl)
+}
+
+func newTemplateLoadedBy(set *TemplateSet, loadedBy *Template, name string, isTplString bool, tpl []byte) (*Template, error) {
 	strTpl := string(tpl)
 
 	// Create the template
 	t := &Template{
 		set:            set,
+		loadedBy:       loadedBy,
 		isTplString:    isTplString,
 		name:           name,
 		tpl:            strTpl,
@@ -206,6 +215,39 @@ func (tpl *Template) newBufferAndExecute(context Context) (*bytes.Buffer, error)
 		return nil, err
 	}
 	return buffer, nil
+}
+
+// maxIncludeDepth is the maximum number of templates which can be executed on
+// top of each other by include tags (a template including itself through a
+// computed name would otherwise recurse until the stack is exhausted).
+const maxIncludeDepth = 100
+
+// executeNested executes the template on behalf of an include or ssi tag of
+// the running execution outer.
+func (tpl *Template) executeNested(outer *ExecutionContext, context Context, writer TemplateWriter) error {
+	if outer.includeDepth >= maxIncludeDepth {
+		return outer.Error(fmt.Sprintf("maximum include depth reached (max is %v)", maxIncludeDepth), nil)
+	}
+	parent, ctx, err := tpl.newContextForExecution(context)
+	if err != nil {
+		return err
+	}
+	ctx.includeDepth = outer.includeDepth + 1
+	if err := parent.root.Execute(ctx, writer); err != nil {
+		return err
+	}
+	return nil
+}
+
+// executeIncluded is executeNested which, like ExecuteWriter, writes to writer
+// on success only.
+func (tpl *Template) executeIncluded(outer *ExecutionContext, context Context, writer io.Writer) error {
+	buffer := bytes.NewBuffer(make([]byte, 0, int(float64(tpl.size)*1.3)))
+	if err := tpl.executeNested(outer, context, buffer); err != nil {
+		return err
+	}
+	_, err := buffer.WriteTo(writer)
+	return err
 }
 
 // Executes the template with the given context and writes to writer (io.Writer)
